@@ -280,7 +280,7 @@ def runProj (s : ProjEncSt) : List String → List String → String
             | some fsz, some bytes, some ret => msSettingsCheck s.ms fsz bytes ret m
             | _, _, _ => some "bad-op"
           let s' := { s with ms := m }
-          -- monitored part of `MsInv`: per-stream ranges, one application, no stream ahead of the first one
+          -- monitored part of `msEncodeContract`: per-stream ranges (streams may differ in `first` since fix 9ffbe457)
           -- (the multistream layer rewrites per-stream bitrate / bandwidth / forced mode / force_channels
           --  through opus_encoder_ctl, so these are checked against their legal ranges, not for equality)
           let rangeBad := m.streams.any (fun e =>
@@ -290,12 +290,8 @@ def runProj (s : ProjEncSt) : List String → List String → String
                       (500 ≤ e.userBitrate ∧ e.userBitrate ≤ 300000 * e.channels))) ||
             !(decide (e.userBandwidth = OPUS_AUTO ∨ (BW_NB ≤ e.userBandwidth ∧ e.userBandwidth ≤ BW_FB))) ||
             !(decide (e.userForcedMode = OPUS_AUTO ∨ (MODE_SILK_ONLY ≤ e.userForcedMode ∧ e.userForcedMode ≤ MODE_CELT_ONLY))))
-          let headFirst := match m.streams with | e0 :: _ => e0.first | [] => true
-          let firstBad := headFirst && m.streams.any (fun e => !e.first)
-          let appBad := match m.streams with | e0 :: es => es.any (fun e => e.application ≠ e0.application) | [] => false
           let tag := if let some why := settingsBad then s!"CONTRACT({why})"
-                     else if rangeBad then "CONTRACT(ms-range)" else if firstBad then "CONTRACT(ms-first)"
-                     else if appBad then "CONTRACT(ms-application)" else "enc"
+                     else if rangeBad then "CONTRACT(ms-range)" else "enc"
           runProj s' ts (s!"{tag}/{msEncSnap s'.ms}" :: acc)
         | none => "bad-op"
       | _ => "bad-op"
